@@ -4,6 +4,7 @@ import (
 	"context"
 	"encoding/json"
 	"fmt"
+	"github.com/go-fed/activity/streams/vocab"
 	"os"
 	"runtime"
 	"sort"
@@ -384,26 +385,35 @@ type shardAbort struct{}
 // watchdog bounds one request (normal requests take well under a millisecond).
 var watchdog = 60 * time.Second
 
-// spinningSite finds, in a dump of all goroutines, the innermost library frame of the goroutine
-// that is executing a scenario request.
-func spinningSite() string {
+// spinningSite finds, in a dump of all goroutines, the innermost and the outermost library frame
+// of the goroutine that is executing a scenario request (the outermost one - the entry point the
+// request went through - is stable from sample to sample and is used in violation keys).
+func spinningSite() (inner, outer string) {
+	inner, outer = "?", "?"
 	buf := make([]byte, 1<<20)
 	n := runtime.Stack(buf, true)
 	for _, g := range strings.Split(string(buf[:n]), "\n\n") {
 		if !strings.Contains(g, "checks.(*Scenario).OnReq") {
 			continue
 		}
+		first := true
 		for _, line := range strings.Split(g, "\n") {
 			if strings.HasPrefix(line, "github.com/go-fed/activity/") {
 				f := strings.TrimPrefix(line, "github.com/go-fed/activity/")
 				if i := strings.LastIndex(f, "("); i > 0 {
 					f = f[:i]
 				}
-				return f
+				if first {
+					inner, first = f, false
+				}
+				outer = f
 			}
 		}
+		if !first {
+			return
+		}
 	}
-	return "?"
+	return
 }
 
 type hOut struct {
@@ -482,8 +492,8 @@ func handlerPart(sc *Scenario, thorough bool) (out *hOut) {
 		case <-time.After(watchdog):
 			// the request spins without making a seam call: it cannot be stopped, so the shard
 			// reports what it has and ends here
-			site := spinningSite()
-			k := fmt.Sprintf("no-return|%s|%s", sc.Entry, NormSite(site))
+			site, entryFrame := spinningSite()
+			k := fmt.Sprintf("no-return|%s|%s", sc.Entry, NormSite(entryFrame))
 			out.Viols[k] = fmt.Sprintf("scenario %s, %s %s -> %s: the request did not return within %v and makes no further seam call (spinning in %s)", sc.Name, target, where, opname, watchdog, site)
 			rep := M{"check": "C11", "part": "handler", "scenario": sc.Name, "target": target, "path": where, "operator": opname}
 			if body != nil {
@@ -559,6 +569,30 @@ func handlerPart(sc *Scenario, thorough bool) (out *hOut) {
 			json.Unmarshal(b, &d)
 			targets = append(targets, target{name: "remote:" + remoteClass(id), doc: d, put: func(a *ap.App, m interface{}) { a.Remote[id] = ap.MustJSON(m) }})
 		}
+	}
+	if sc.Entry == "GetInbox" || sc.Entry == "GetOutbox" {
+		// the page the application supplies is a stored value too: hostile items inside it
+		page := Doc("OrderedCollectionPage", sc.URL+"?page=1", "partOf", sc.URL, "orderedItems", L{
+			"https://r1.example/act/a",
+			Emb("Create", "https://r1.example/act/b", "actor", Carol, "object", Emb("Note", "https://r1.example/n/b", "content", "b")),
+			Emb("Note", "https://r1.example/n/c", "content", "c"),
+			"https://r1.example/act/a",
+			Emb("Link", "", "href", "https://r1.example/act/b"),
+			Emb("Create", "https://r1.example/act/b", "actor", Carol, "object", "https://r1.example/n/b"),
+		})
+		var d interface{}
+		json.Unmarshal(ap.MustJSON(page), &d)
+		targets = append(targets, target{name: "served-page", doc: d, put: func(a *ap.App, m interface{}) {
+			t, err := ap.Decode(ap.MustJSON(m))
+			if err != nil {
+				return
+			}
+			pg, ok := t.(vocab.ActivityStreamsOrderedCollectionPage)
+			if !ok {
+				return // the application cannot supply this value as a page
+			}
+			a.ServePage = func(string) (vocab.ActivityStreamsOrderedCollectionPage, error) { return pg, nil }
+		}})
 	}
 	for _, tg := range targets {
 		tg := tg
@@ -753,7 +787,7 @@ func C11(tier string) int {
 		bound = 2
 	}
 	res.Extra["mutation_bound_completed"] = bound
-	res.Rule = fmt.Sprintf("(1) decoder: every type x every member name (all properties, their Map forms, type, id, @context) x %d junk JSON values x {scalar, list} through decode->encode->decode->encode, plus every example embedded in the vocabulary files with each node mutated by %d operators; (2) handlers: for each of %d scenarios (all entry points), every JSON node of the request body and of every stored / remote document the fault-free run reads is, one at a time (thorough: two at a time), removed, nulled, emptied or replaced by a value of another kind (number, bool, array, object without id, unknown type, IRI to a missing / ill-typed / incomplete / unknown-type / garbled / cyclic document), plus whole-document replacements and recursion limits 1,2,4; oracle: no panic, returns within the seam-call horizon; distinct = (target document, path, operator)", len(junk)+1, len(mutOps), len(scs))
+	res.Rule = fmt.Sprintf("(1) decoder: every type x every member name (all properties, their Map forms, type, id, @context) x %d junk JSON values x {scalar, list} through decode->encode->decode->encode, plus every example embedded in the vocabulary files with each node mutated by %d operators; (2) handlers: for each of %d scenarios (all entry points), every JSON node of the request body, of every stored / remote document the fault-free run reads and (GetInbox / GetOutbox) of the page the application supplies is, one at a time (thorough: two at a time), removed, nulled, emptied or replaced by a value of another kind (number, bool, array, object without id, unknown type, IRI to a missing / ill-typed / incomplete / unknown-type / garbled / cyclic document), plus whole-document replacements and recursion limits 1,2,4; oracle: no panic, returns within the seam-call horizon; distinct = (target document, path, operator)", len(junk)+1, len(mutOps), len(scs))
 	res.Assumptions = []string{"arbitrary byte strings are replaced by a bounded junk alphabet and grammar-based mutations; coverage-guided fuzzing (sampling) is deliberately not used",
 		"a hang that makes no seam call is caught only by the worker timeout"}
 	return res.Finish()
